@@ -268,3 +268,39 @@ def split_or_guard_arms(sn: Snippet):
         if done:
             break
     return total
+
+
+def option_closures(sn: Snippet):
+    """R4 (std combinators on Option with a closure, which Verus does not take): for a receiver that is a method call on self or a
+    plain path,  `RECV.is_some_and(|x| E)`  and  `RECV.map(|x| E).unwrap_or(false)`  ->  `(match RECV { Some(x) => E, None => false })`.
+    Both are the definition of the combinator; balanced parentheses."""
+    n = 0
+    while True:
+        mask = make_mask(sn.text)
+        # a function path as the predicate: `RECV.is_some_and(Self::f)` -> closure form first
+        mp = re.search(r'\.is_some_and\(\s*((?:\w+::)*\w+)\s*\)', mask)
+        if mp:
+            sn.replace_range('R4', mp.start(), mp.end(), '.is_some_and(|verif_x| %s(verif_x))' % mp.group(1), "is_some_and(path) -> is_some_and(|x| path(x))")
+            continue
+        m = re.search(r'((?:self\s*\.\s*)?\w+(?:\(\))?)\s*\.is_some_and\(\|(\w+)\|', mask)
+        kind = 'is_some_and'
+        if not m:
+            m = re.search(r'((?:self\s*\.\s*)?\w+(?:\(\))?)\s*\.map\(\|(\w+)\|', mask)
+            kind = 'map'
+            if not m:
+                break
+        op = mask.index('(', m.end(1))
+        cp = match_close(mask, op)
+        body = sn.text[m.end():cp].strip()
+        end = cp + 1
+        if kind == 'map':
+            t = re.match(r'\s*\.unwrap_or\(false\)', mask[end:])
+            if not t:
+                # some other use of map: leave it (and stop: the same match would be found again)
+                break
+            end += t.end()
+        recv = ' '.join(sn.text[m.start(1):m.end(1)].split()).replace(' .', '.').replace('. ', '.')
+        sn.replace_range('R4', m.start(), end, '(match %s { Some(%s) => %s, None => false })' % (recv, m.group(2), body),
+                         "Option::%s(|x| E)%s -> match { Some(x) => E, None => false }" % (kind, '.unwrap_or(false)' if kind == 'map' else ''))
+        n += 1
+    return n
